@@ -96,7 +96,7 @@ func (Engine) Run(c *simkit.Choices, x *simkit.Ctx) *simkit.Violation {
 
 		w := simkit.NewWriter()
 		w.Clock = &x.Clock
-		rd := &simkit.Reader{Data: append([]byte{}, doc.Bytes...), Sizes: sc.Reads, EOFWithData: sc.EOFWithData, Clock: &x.Clock}
+		rd := &simkit.Reader{Data: simkit.Exact(doc.Bytes), Sizes: sc.Reads, EOFWithData: sc.EOFWithData, Clock: &x.Clock}
 		var err error
 		pi := simkit.Guard(func() {
 			enc := dst.NewVisitor(w)
